@@ -32,6 +32,7 @@ CHECKER = 'chk'
 SHARD = 8
 EXHAUSTIVE = True
 S = [-1, 0, 1, 2, None]                    # the value alphabet
+E = F(1, 64)
 NS = [1, 2, 3, 4, 5]                       # device lengths
 CLASSES = ['CDev', 'CPV', 'CG', 'CC', 'CC2', 'CI', 'CI2', 'CS', 'CA', 'CT', 'CW']
 
@@ -246,21 +247,32 @@ def elems(lmax, full_upto=2):
   return out
 
 
+def threshold_bounds():
+  """low/high around equality, off the integer alphabet: (lo, hi) scalar pairs, tables and vector pairs of length 1-3"""
+  vals = [F(0), E, -E, F(1), F(1) - E, F(1) + E]
+  out = []
+  for lo in vals:
+    for hi in vals:
+      out += [[lo, hi], [[lo, hi]], [[lo], [hi]], [[lo, hi], [lo, hi]], [[F(0), lo], [F(1), hi]], [[F(0), F(0), lo], [F(1), F(1), hi]], [[lo, hi]] * 3]
+  return out
+
+
 def vb_domain(tier):
   """list of pv values (deterministic order) + a description"""
   if tier in ('quick', 'search'):
     e2 = elems(3)                                   # 45 elements
     e3 = list(S) + fam(1, 2) + [[c] * 2 for c in S] + [[0, 1], [1, 0], [0, None]] + fam(3, 2)
-    out = [None, 5, []] + [[a] for a in e2] + [[a, b] for a in e2 for b in e2] + [[a, b, c] for a in e3 for b in e3 for c in e3]
-    desc = ('outer length 1-2 over E = alphabet + all inner vectors of length 1-2 + 10 patterns of length 3 (|E|=45); outer length 3 over '
+    out = [None, 5, []] + threshold_bounds() + [[a] for a in e2] + [[a, b] for a in e2 for b in e2] + [[a, b, c] for a in e3 for b in e3 for c in e3]
+    desc = ('252 low/high pairs around equality (0, 1, +-2^-6 off them) as scalar pair / table / vector pair; '
+            'outer length 1-2 over E = alphabet + all inner vectors of length 1-2 + 10 patterns of length 3 (|E|=45); outer length 3 over '
             'alphabet + all vectors of length 1 + 8 of length 2 + 10 of length 3 (28 elements)')
     return out, desc
   e2 = elems(5)
   e4 = list(S) + [v for m in range(1, 6) for v in small_fam(m)]
   e5 = list(S) + small_fam(2) + small_fam(5)
-  out = [None, 5, []] + [[a] for a in e2] + [[a, b] for a in e2 for b in e2] + [[a, b, c] for a in e2 for b in e2 for c in e2]
+  out = [None, 5, []] + threshold_bounds() + [[a] for a in e2] + [[a, b] for a in e2 for b in e2] + [[a, b, c] for a in e2 for b in e2 for c in e2]
   out += [list(t) for t in itertools.product(e4, repeat=4)] + [list(t) for t in itertools.product(e5, repeat=5)]
-  desc = ('outer length 1-3 over E = alphabet + all inner vectors of length 1-2 + 10 patterns of each length 3-5 (|E|=65); outer length 4 over '
+  desc = ('252 low/high pairs around equality (0, 1, +-2^-6 off them) as scalar pair / table / vector pair; outer length 1-3 over E = alphabet + all inner vectors of length 1-2 + 10 patterns of each length 3-5 (|E|=65); outer length 4 over '
           'alphabet + 4 patterns of each length 1-5 (25); outer length 5 over alphabet + 4 patterns of lengths 2 and 5 (13)')
   return out, desc
 
@@ -301,9 +313,6 @@ def chunks(l, k):
 # ---------------------------------------------------------------------------------------------------
 # parameter checks: (class, n, [(param, value), ...] applied in this order)
 # ---------------------------------------------------------------------------------------------------
-E = F(1, 64)
-
-
 def around(t):
   return [t - E, t, t + E]
 
